@@ -949,7 +949,7 @@ func c09Big(kind string, res *c09Res) string {
 }
 
 func runC09(c *Ctx) int {
-	maxLen := c.Pick(7, 8)
+	maxLen := c.Pick(7, 7) // length 8 did not finish within two hours on 5 cores here; the thorough tier deepens the random part instead
 	type job struct{ a c09Args }
 	var jobs []job
 	for _, kind := range backends {
